@@ -116,7 +116,8 @@ def _validate(v: Union[str, bytes], prefixes: list):
     if isinstance(v, str):
         v = v.encode()
     v = scrub_input(v)
-    if any(map(v.startswith, prefixes)):
+    # the kind is selected by prefix and length; it has to be one of the wanted kinds (b'BLsk...' also starts with b'B')
+    if any(len(v) == enc[1] and v.startswith(enc[0]) and enc[0] in prefixes for enc in base58_encodings):
         base58_decode(v)
     else:
         raise ValueError('Unknown prefix.')
